@@ -60,11 +60,13 @@ def run(tier):
     of = os.path.join(w, "orders.ndjson")
     write_ndjson(of, orders)
     # (G) files with several object streams from the Producer (histories)
-    res = [c02.gen_files(w, "q", 40, 250 if tier == "quick" else 1500, vlib.seed() + 8, 7, 3, cfg="Gen_File_ghosts.cfg")]
+    res = [c02.gen_files(w, "q", 40, 160 if tier == "quick" else 1500, vlib.seed() + 8, 7, 3, cfg="Gen_File_ghosts.cfg", deep=True)]
     files = []
+    tables = []
     for r, cases in res:
         chk.add_tlc(r)
         files += [f for f in cases if f["xref"].startswith("stream")]
+        tables += [f for f in cases if not f["xref"].startswith("stream")]
     files.sort(key=lambda f: (-(f["ghost"] > 0 and f["ncomp"] >= 2), -f["ncomp"]))
     files = files[:60 if tier == "quick" else 400]
     if sum(1 for f in files if f["ghost"] > 0 and f["ncomp"] >= 2) < 3:
@@ -87,6 +89,30 @@ def run(tier):
                         g["dupmember"] = True
                         dups.append(g)
                         done = True
+    # variants of equal length in which every bare integer object (e.g. an indirect stream Length) holds another
+    # value: loaded alternately with their originals from one buffer in the shared-buffer phase
+    ivars = []
+    tables = tables[:20 if tier == "quick" else 150]        # all objects plain: indirect stream lengths are bare integer objects
+    files = files + tables
+    for f in files:
+        b = bytes(f["bytes"])
+        SEP = rb"(?:[ \r\n\t\x0c\x00]|%[^\r\n]*[\r\n])+"
+        SEP0 = rb"(?:[ \r\n\t\x0c\x00]|%[^\r\n]*[\r\n])*"
+        ms = list(re.finditer(rb"(?<![0-9])(\d+)" + SEP + rb"0" + SEP + rb"obj" + SEP0 + rb"\+?(\d+)" + SEP + rb"endobj", b))
+        if ms and f["sfilter"] == "none":
+            nb = bytearray(b)
+            for m in ms:
+                v = int(m.group(2))
+                if v >= 1:
+                    nv = str(v - 1).rjust(len(m.group(2)), "0").encode()
+                    nb[m.start(2):m.end(2)] = nv
+            if bytes(nb) != b:
+                g = dict(f)
+                g["bytes"] = list(nb)
+                g["intvariant"] = True
+                ivars.append(g)
+    files = files + ivars[:12 if tier == "quick" else 100]
+    chk.extra["integer_object_variants"] = len(ivars[:12 if tier == "quick" else 100])
     if len(dups) < 3:
         raise vlib.ToolError("vacuous: fewer than 3 variants with a duplicated member number inside one object stream")
     files = files + dups[:20 if tier == "quick" else 150]
@@ -100,9 +126,13 @@ def run(tier):
     run_bin("c08seq", [fin, outs], crate="harness-seq")
     seq = {r["file"]: r for r in read_ndjson(outs)}
     recs = read_ndjson(outp)
+    fresh = {r["file"]: r for r in recs if r["kind"] == "fresh"}
     for r in recs:
-        r["seqhash"] = seq[r["file"]]["hash"]
-        r["seqres"] = seq[r["file"]]["res"]
+        ref = fresh[r["file"]] if r["file"] >= 100000 else seq[r["file"]]
+        r["seqhash"] = ref["hash"]
+        r["seqres"] = ref["res"]
+    if sum(1 for r in recs if r["kind"] == "shared") < 20:
+        raise vlib.ToolError("vacuous: fewer than 20 loads from a shared buffer")
     verdicts, states, trans = vlib.validate_trace("Trace_ParallelLoad.tla", "Trace_ParallelLoad.cfg", recs, "c08")
     chk.states += states
     chk.transitions += trans
@@ -111,7 +141,7 @@ def run(tier):
     forced = 0
     for v in verdicts:
         rec = recs[v["i"]]
-        f = files[rec["file"]]
+        f = files[rec["file"] % 100000]
         chk.case((rec["file"], rec["kind"], rec.get("threads"), rec.get("rep"), tuple(rec.get("order", []))) if len(rec["containers"]) >= 2 else None)
         if v["v"].startswith("ok"):
             chk.traces += 1
@@ -120,7 +150,7 @@ def run(tier):
             chk.violation("C08:" + v["v"], {"schedule": {k: rec.get(k) for k in ("kind", "threads", "rep", "order", "observed")},
                                             "hash": rec["hash"], "seqhash": rec["seqhash"], "knobs": {k: f.get(k) for k in ("xref", "nrevs", "ncomp", "redefined", "ghost", "dupmember")},
                                             "bytes": f["bytes"]})
-    if forced < 50:
+    if forced < 50 and not chk.violations:
         raise vlib.ToolError("vacuous: only %d loads with a forced completion order" % forced)
     chk.extra["loads_with_forced_order"] = forced
     natural = collections.Counter(tuple(r["observed"]) != tuple(r["containers"]) for r in recs if r["kind"] == "pool" and len(r["containers"]) >= 2)
